@@ -193,6 +193,10 @@ func genCase(r *kit.Rand, i int, tier string) []string {
 		arg = "p:" + kit.F64(kit.Pick(r, pcts))
 	case "top", "bottom", "movingAverage":
 		arg = fmt.Sprintf("n:%d", nArg)
+		if fn != "movingAverage" && r.Chance(2, 5) {
+			// top/bottom's extra fieldsAndTags arguments (a tag, a field, both, an unknown name)
+			arg += kit.Pick(r, []string{"/h", "/w", "/h/w", "/nosuch", "/g/h"})
+		}
 	case "elapsed":
 		arg = fmt.Sprintf("u:%d", kit.Pick(r, []int64{1000, 2000, 3000, 7000}))
 	}
